@@ -1,0 +1,19 @@
+//go:build verif
+
+package pkgload
+
+import (
+	"go/ast"
+
+	"github.com/jmattheis/goverter/method"
+	"golang.org/x/tools/go/packages"
+)
+
+// VerifLocalConfig exposes localConfig for a package given only by its syntax trees.
+func VerifLocalConfig(pkgPath string, files []*ast.File, name string) method.LocalOpts {
+	g := &PackageLoader{
+		lookup: map[string]*packages.Package{},
+		locals: map[string]map[string]method.LocalOpts{},
+	}
+	return g.localConfig(&packages.Package{PkgPath: pkgPath, Syntax: files}, name)
+}
